@@ -6,11 +6,11 @@ ROOT = os.path.dirname(os.path.dirname(os.path.abspath(__file__)))
 
 # id -> (technique, level text, level note, design ref)
 CLAIMED = {
- "C01": ("SSA dataflow over Read results (use-before-error-test), constant provenance of the requested block-checksum length, loop-exit analysis of the whole-file send loop; plus the necessary conditions shared with C02, C12, C14/FIELDS and C15/W5 re-evaluated under their own rule names; loop-exit analysis of the sender's window fill (no unread byte is handed on)",
+ "C01": ("SSA dataflow over Read results (use-before-error-test), constant provenance of the requested block-checksum length, loop-exit analysis of the whole-file send loop; plus the necessary conditions shared with C02, C12, C14/FIELDS and C15/W5 re-evaluated under their own rule names; loop-exit analysis of the sender's window fill (no unread byte is handed on); must-pass-through of the atomic replace before a successful return of receiveData",
          "Partial, structural; byte equality itself is NOT decided. Decides necessary conditions of 'a transfer of a static tree succeeds and reproduces the bytes': block checksums are requested at full MD4 length (there is no redo pass for a file whose whole-file checksum fails); every direct Read in the data path uses the bytes it returned before acting on the error (io.EOF may come with data); the whole-file path writes exactly buf[:n] after its length, leaves its loop only on the Read's error and ends with the end-of-data token; and, shared: the delta clauses of C02, the update-rule tables of C12, encoder/decoder agreement of the file-list fields (C14/FIELDS) and identical numbering on both ends (C15/W5).",
          "Trusted: MD4, os.Root/renameio. Not covered: offsets/window/block arithmetic, token encoding, name mapping of source arguments, option combinations. One genuine defect repaired by a fix: commit (F24).",
          "DESIGN.md §13"),
- "C16": ("SSA guard dominance at the whole-file request sites, natural-loop membership of the candidate-rejection edges, store analysis of the scan position, allocation-site/loop analysis of the per-file lookup structures, structural shape of the block-checksum loop",
+ "C16": ("SSA guard dominance at the whole-file request sites, natural-loop membership of the candidate-rejection edges, store analysis of the scan position, allocation-site/loop analysis of the per-file lookup structures, structural shape of the block-checksum loop; back-edge analysis (header phis / variables outliving an iteration) of the lazily computed strong checksum",
          "Partial, structural; the bound on literal bytes is NOT decided. Decides necessary conditions of 'unchanged data is found again': the generator requests the whole file only when the destination is missing, not regular or cannot be opened, and otherwise sums the opened destination file; every block up to SumSizesSqroot's count gets its weak and strong sum over the bytes just read; the sender tries every candidate with the window's tag (rejections continue the candidate loop) at every byte offset (outside the match path the scan position only ever advances by one, on every iteration); the lookup structures and Transfer.lastMatch are rebuilt/reset for every file; the targets are sorted by a comparator that is an ordering of the tags; no slice of the read window is kept across ptr calls; a from-scratch recomputation of the rolling checksum precedes the roll of its iteration.",
          "Trusted: the checksum definitions (C02/ONE-DEFINITION). Not covered: rolling-checksum algebra, tag function, block-size selection, the end bound — arithmetic over runtime data.",
          "DESIGN.md §13"),
@@ -30,7 +30,7 @@ CLAIMED = {
          "Partial: the oracle is a transcription of protocol 27 (rsync 2.6.x flist.c/io.c/rsync.h), not a foreign implementation. Decides that encoder and decoder field sequences, flag-controlled alternatives, same-as-previous copies, constants, longint encoding, checksum header order and file numbering conform to that table.",
          "Trusted: the transcription itself (listed in evidence trusted_base). No independent protocol-27 implementation can be run statically.",
          "DESIGN.md §3 C15"),
- "C20": ("field-store enumeration of the SSH server config, decision-table extraction of the public-key callback, string-dispatch surface extraction, call-graph unreachability from the anonymous exec callback",
+ "C20": ("field-store enumeration of the SSH server config, decision-table extraction of the public-key callback, string-dispatch surface extraction, call-graph unreachability from the anonymous exec callback, effect scan of the anonymous exec path in front of the module code",
          "Decides: only public-key auth is ever configured; the key callback accepts iff the listener is anonymous or the presented key is in the loaded set (which is non-nil whenever an authorised address is configured); only session channels and env/exec requests are handled; from the anonymous listener's exec callback no CLI/client entry, process spawn, dial or listener is reachable while the daemon handler is, and the module table it serves is the configured one.",
          "Trusted: x/crypto/ssh. Context-insensitive reachability (a mode check inside the general entry point would still be reported). One genuine defect repaired by a fix: commit.",
          "DESIGN.md §3 C20"),
@@ -46,7 +46,7 @@ CLAIMED = {
          "Partial, structural: excluded files never cut the walk; every flag the parser can set is honoured by the matcher or rejected with an error; no explicit panic under the matcher; first matching rule decides by its include flag; a plain-name rule is decided by string equality and loses exactly the prefix that was tested; both sender entry points receive the user's rules; the receiving client sends its rules before the list terminator and never sends an empty rule (whose length is the terminator); the filter decision dominates every persistent store and wire write of the walk callback (an excluded entry leaves no trace in what follows). String semantics of matching are not decided.",
          "Trusted: fs.WalkDir SkipDir semantics. Five genuine defects found by these rules were repaired by fix: commits (known_findings.json).",
          "DESIGN.md §3 C13"),
- "C02": ("SSA guard dominance with value identity (same block index i across weak, length and strong comparisons) + who-may-call for checksum definitions + field-store provenance of the seed + affine-form evaluation (no solver) of the token codec and of matched's range bookkeeping + guarded-leaf tables for block lengths",
+ "C02": ("SSA guard dominance with value identity (same block index i across weak, length and strong comparisons) + who-may-call for checksum definitions + field-store provenance of the seed + affine-form evaluation (no solver) of the token codec and of matched's range bookkeeping + guarded-leaf tables for block lengths + affine evaluation of the early-flush guard against the flush position",
          "Partial, structural: a block reference is emitted only after weak, length and strong (seeded MD4, sliced by the negotiated length) comparisons for that same block; one shared checksum definition used by both ends with the session seed; the whole-file trailer is always sent; a reallocated read window keeps its contents; a read window never extends past the mapped file size; the block-reference codec of the two ends composes to the identity; both ends give block i the same length (remainder only for the last block); sender.matched partitions the file (literal run, bytes hashed and lastMatch advance agree as affine forms); the receiver's output is exactly the stream (every write through the one MultiWriter, no Seek/Truncate); no slice of the sender's read window is kept across ptr calls. The search loop's own offset arithmetic, the rolling checksum and the receiver's literal handling are NOT decided.",
          "Trusted: MD4. Not covered: window arithmetic in mapStruct/matched/receiveData beyond the clamp to the file size. One genuine defect repaired by a fix: commit.",
          "DESIGN.md §3 C02"),
@@ -82,7 +82,7 @@ CLAIMED = {
          "Decides structural necessary conditions of --delete correctness: SkipDir only for directories; RemoveAll only of the walked path after a negative list lookup, and only with IOErrors==0 and DeleteMode on every chain; lookup comparator matches the sort comparator; the delete walk skips only directories that are not in the list (it descends into every listed one); the sender's I/O error flag is sticky over all source arguments; filter consultation before removal (known finding F14). Does not decide set equality for all trees.",
          "Trusted: fs.WalkDir semantics, sort.Search. Known finding listed in known_findings.json (exclude rules do not protect from --delete).",
          "DESIGN.md §3 C09"),
- "C10": ("effect analysis with guard dominance lifted over the package call graph (closures at creation and call sites)",
+ "C10": ("effect analysis with guard dominance lifted over the package call graph (closures at creation and call sites); sinks include calls through (phis of) bound method values",
          "Decides that every destination-mutating call in the receiver is dominated by DryRun==false on every call chain from every package entry, that block checksums are not generated in a dry run, that the sender's data path is dominated by !DryRun() and the dry-run branch only echoes the index, and that -n is forwarded. A missing guard anywhere is reported with the chain.",
          "Trusted: the classification table of mutating APIs (effects.go); creation of the destination root itself is out of scope per the statement.",
          "DESIGN.md §3 C10"),
